@@ -69,7 +69,7 @@ def case_kw(rng, row):
     kw = {'mpu': False, 'mmu': False, 'e': rng.choice((0, 0, 1))}
     nm = row.name
     if nm.startswith(('SUBS_PC_LR', 'ERET', 'RFE', 'LDM_eret')) and rng.random() < 0.85:
-        kw['mode'] = rng.choice(('svc', 'irq', 'fiq', 'abt', 'und', 'svc'))
+        kw['mode'] = rng.choice(('svc', 'irq', 'fiq', 'abt', 'und', 'svc', 'mon'))
     return kw
 
 
